@@ -112,3 +112,52 @@ Proof.
   rewrite (all_chars_head_not idxc is_space (srev (dz k)) idxc_not_space); [reflexivity|].
   rewrite all_chars_srev. exact H.
 Qed.
+
+(* ---- a lead written without its "+" ---- *)
+Theorem py_int_unsigned p : short_int (Zpos p) = true -> py_int (string_of_Z (Zpos p)) = Some (Zpos p).
+Proof.
+  unfold short_int, dz. cbn [Z.ltb Z.compare]. intros Hlim. apply negb_true_iff in Hlim. revert Hlim.
+  unfold string_of_Z. cbn [Z.to_int NilZero.string_of_int]. rewrite nz_string_pos.
+  pose proof (parse_digits_pos p) as P. pose proof (uint_chars (Pos.to_uint p)) as Hd.
+  destruct (NilEmpty.string_of_uint (Pos.to_uint p)) as [|c r] eqn:Es.
+  - cbn [parse_digits] in P. discriminate.
+  - intros Hlim. change (count_digits ("+" ++ String c r)) with (count_digits (String c r)) in Hlim.
+    unfold py_int. rewrite strip_id_nospace by (apply digits_no_pyspace, Hd). rewrite Hlim.
+    cbn [all_chars] in Hd. apply andb_true_iff in Hd as [Hc _]. pose proof (digit_facts c Hc) as F.
+    apply andb_true_iff in F as [F Hp]. apply andb_true_iff in F as [_ Hm]. apply negb_true_iff in Hm, Hp. rewrite Hm, Hp. exact P.
+Qed.
+
+Lemma ibody_chars plus k : all_chars idxc (ibody plus (IInt k)) = true.
+Proof. destruct plus; cbn [ibody]; [apply dz_chars|apply string_of_Z_chars]. Qed.
+Lemma ibody_nonempty plus k : ibody plus (IInt k) <> "".
+Proof.
+  destruct plus; cbn [ibody]; [apply dz_nonempty|]. unfold string_of_Z. destruct (Z.to_int k) as [d|d]; cbn [NilZero.string_of_int]; [|discriminate].
+  destruct d; discriminate.
+Qed.
+Lemma ibody_not_quoted plus k q : In q ["'"; """"; "`"]%char -> quoted_by q (ibody plus (IInt k)) = false.
+Proof.
+  intros Hq. pose proof (ibody_chars plus k) as H. pose proof (ibody_nonempty plus k) as N. destruct (ibody plus (IInt k)) as [|c r]; [congruence|].
+  cbn [all_chars] in H. apply andb_true_iff in H as [Hc _]. pose proof (idxc_not_quote c Hc) as P.
+  apply andb_true_iff in P as [P P3]. apply andb_true_iff in P as [P1 P2]. apply negb_true_iff in P1, P2, P3.
+  unfold quoted_by. cbn [head_is]. cbn [In] in Hq. destruct Hq as [<-|[<-|[<-|[]]]]; rewrite ?P1, ?P2, ?P3; reflexivity.
+Qed.
+Lemma py_int_ibody plus k : short_int k = true -> py_int (ibody plus (IInt k)) = Some k.
+Proof.
+  intros Hs. destruct plus; cbn [ibody]; [apply (py_int_dz k Hs)|].
+  destruct k as [|p|p]; [reflexivity|apply (py_int_unsigned p Hs)|].
+  pose proof (py_int_dz (Zneg p) Hs) as H. unfold dz in H. cbn [Z.ltb Z.compare] in H. exact H.
+Qed.
+Theorem mk_index_ibody plus k : short_int k = true -> mk_index (Some (ibody plus (IInt k))) = Ret (IInt k).
+Proof.
+  intros Hs. unfold mk_index.
+  rewrite (ibody_not_quoted plus k "'"), (ibody_not_quoted plus k """"), (ibody_not_quoted plus k "`"), (py_int_ibody plus k Hs); cbn [In]; auto.
+Qed.
+Lemma idx_ok_ibody plus k : idx_ok (ibody plus (IInt k)) = true.
+Proof.
+  pose proof (ibody_chars plus k) as H. unfold idx_ok.
+  rewrite (idxc_no "]" _ eq_refl H). unfold has_nl. rewrite (idxc_no nl _ eq_refl H).
+  rewrite (all_chars_head_not idxc is_space _ idxc_not_space H).
+  change (rev_str (ibody plus (IInt k)) "") with (srev (ibody plus (IInt k))).
+  rewrite (all_chars_head_not idxc is_space (srev (ibody plus (IInt k))) idxc_not_space); [reflexivity|].
+  rewrite all_chars_srev. exact H.
+Qed.
